@@ -58,6 +58,10 @@ def _waiter_key(fn: ast.FunctionDef, msg: str):
 
 def run(ctx: Ctx):
     model = ctx.model
+    from .common_node import names_resolve
+    names_resolve(ctx, "C10-RN")
+    from .recvmsg import received_messages_reach_dispatch
+    received_messages_reach_dispatch(ctx, "C10-R11d", answers=True, requests=False)
     nc = model.cls("node.node", "Node")
     peer_mod = model.module("node.peer")
     READY = frozenset(model.fold_name(peer_mod, "PEER_READY_STATES"))
